@@ -52,7 +52,7 @@ class Contract:
 
     def __init__(self, file, qual, params=None, result=None, requires=(), ensures=(), modifies=(), raises=None,
                  setup=(), reads=None, pure=False, allocates=True, doc="", ghost_results=None, cases=None,
-                 ghost_exit=(), chain=False):
+                 ghost_exit=(), chain=False, assumed_ensures=(), ghost_after=None):
         self.file, self.qual = file, qual
         self.params = params or {}
         self.result = result
@@ -67,6 +67,11 @@ class Contract:
         self.cases = cases          # optional list of spec clauses: exhaustive case split of the pre-state
         self.ghost_exit = list(ghost_exit)   # ghost statements run at every normal exit (may only assign ghost state)
         self.chain = chain                   # prove the ensures clauses in order, earlier ones usable as lemmas
+        # clauses ASSUMED at call sites but not proved for the body (reported as assumptions, e.g. no float overflow)
+        self.assumed_ensures = list(assumed_ensures)
+        # ghost statements (lemma hints: `assert e`) run after the first top-level statement of the function whose source
+        # text contains the key:  {"GetDataItemWithMaxGlobalR": ["assert ...", ...]}
+        self.ghost_after = dict(ghost_after or {})
 
     @property
     def cls(self):
@@ -475,6 +480,8 @@ class Engine:
         return ref.cls if ref.cls and not ref.cls.startswith(("vec:", "list:")) else None
 
     _class_fields = None
+    ghost_fields = {"SearchData": ("gseq", "gn", "gpos"), "SearchDataDualQueue": ("gseq", "gn", "gpos"),
+                    "DEPQ": ("gitems", "gkeys", "glen", "gcnt"), "Method": ("gtop",), "Problem": ("gcalls", "gevals")}
 
     def class_fields(self, cls):
         """mangled names of the attributes that the methods of `cls` (and its bases) assign through self"""
@@ -522,15 +529,16 @@ class Engine:
             own = self.class_fields(name) if name else None
             for fname, t in list(self.schema.items()):
                 if isinstance(fname, str) and not fname.startswith("$") and fname not in state.heap and \
-                        (own is None or fname in own or (fname.startswith("g") and fname[1:2].islower())):
+                        (own is None or fname in own or fname in self.ghost_fields.get(name, ())):
                     self.harr(state, fname)
-            for name, arr in list(state.heap.items()):
-                if name.startswith("$"):
-                    continue
-                state.heap[name] = z3.Store(arr, r, self.fresh("hv_" + name, arr.sort().range()))
-                t = self.field_type(name)
+            mine = None if own is None else (set(own) | set(self.ghost_fields.get(name, ())))
+            for fname, arr in list(state.heap.items()):
+                if fname.startswith("$") or (mine is not None and fname not in mine):
+                    continue            # an object has only the fields its class (and bases) assign, plus its ghost fields
+                state.heap[fname] = z3.Store(arr, r, self.fresh("hv_" + fname, arr.sort().range()))
+                t = self.field_type(fname)
                 if t and t.startswith(("ref:", "vec:", "list:")):
-                    v = z3.Select(state.heap[name], r)
+                    v = z3.Select(state.heap[fname], r)
                     state.assume(z3.And(v >= 0, v < state.abase + state.nalloc))
         elif kind == "any":
             self.unsupported("havoc of '*'")
@@ -1309,6 +1317,9 @@ class Engine:
 
     verifying = None
     quant_depth = 0
+    active_ghost_after = None
+    ghost_after_done = ()
+    fn_pre_state = None
 
     def call_function(self, state, ci, name, fn, args, kw, node=None, bound=None, module=None):
         """Inline execution of a callee body (only for functions without a contract)."""
@@ -1470,7 +1481,7 @@ class Engine:
                     st2.assume(self.eval_spec(st2, p, env2, pre))
                 st2.env = dict(self.caller_env_stack[-1]) if self.caller_env_stack else dict(state.env)
                 self.pending_raises.append((st2, ExcVal(exc)))
-            for p in con.ensures:
+            for p in list(con.ensures) + list(getattr(con, "assumed_ensures", ())):
                 state.assume(self.eval_spec(state, p, env2, pre))
             return res
         finally:
@@ -1667,6 +1678,13 @@ class Engine:
                 cur = normals[0]
             else:
                 cur = merge_states(self.common_prefix(normals), normals)
+            if cur is not None and self.active_ghost_after and self.call_depth == 0 and self.spec_mode == 0 and \
+                    self.cur_fn_node is not None and any(st is b for b in self.cur_fn_node.body):
+                src = ast.unparse(st)
+                for key, gst in self.active_ghost_after.items():
+                    if key in src and key not in self.ghost_after_done:
+                        self.ghost_after_done.add(key)
+                        self.run_ghost(cur, gst, old=self.fn_pre_state)
         res = list(abrupt)
         if cur is not None:
             res.append((cur, Outcome.NORMAL, None))
@@ -1775,6 +1793,14 @@ class Engine:
         if not isinstance(v, ExcVal):
             self.unsupported("raise of %r" % (v,), st)
         return [(state, Outcome.RAISE, v)]
+
+    def s_Assert(self, state, st):
+        """`assert e`: in ghost code a lemma hint (proved here, used afterwards); in executed code AssertionError must be
+        unreachable"""
+        c = self.truth(self.eval(state, st.test), st)
+        self.oblige(state, c, "ghost-assert" if self.spec_mode else "assert", st, ast.unparse(st.test)[:300])
+        state.assume(c)
+        return [(state, Outcome.NORMAL, None)]
 
     def s_Break(self, state, st):
         return [(state, Outcome.BREAK, None)]
@@ -1965,14 +1991,15 @@ class Engine:
                             if nm is None or not nm.startswith("g"):
                                 raise EngineError("ghost code assigns non-ghost state: %s" % g)
                 self.spec_mode += 1
-                saved_old = self.old_state
+                saved_old, saved_safety = self.old_state, self.safety
+                self.safety = False
                 if old is not None:
                     self.old_state = old
                 try:
                     outs = self.exec_stmt(state, stn)
                 finally:
                     self.spec_mode -= 1
-                    self.old_state = saved_old
+                    self.old_state, self.safety = saved_old, saved_safety
                 if len(outs) != 1 or outs[0][1] != Outcome.NORMAL:
                     raise EngineError("ghost code must be straight-line: %s" % g)
                 if outs[0][0] is not state:
@@ -2239,6 +2266,7 @@ class Engine:
             self.push_frame(locs, self.alloc0, con.qual)
         self.entry_abase = self.alloc0
         self.pending_raises = []
+        self.active_ghost_after, self.ghost_after_done, self.fn_pre_state = con.ghost_after, set(), pre
         try:
             outs = self.exec_block(state, strip_doc(fn.body))
         finally:
